@@ -2,12 +2,13 @@
 (* Schedule source: TLC enumerates EVERY case of the design spec (breadth-first, no simulation needed: the behaviours
    are one environment move long) and prints it as a two-step schedule.  Only the environment's move (the abstract
    submission) is recorded; what the handler does with it is the implementation's business.  The Cfg step carries the
-   model's endpoint list so that the executor can cross-check it against the exported method set of
-   validatorapi.Component. *)
+   model's endpoint list (the executor cross-checks it against the exported method set of validatorapi.Component)
+   and the model's signing tables - domain name and epoch source per type - from which the executor signs. *)
 EXTENDS Admission, Json
 VARIABLE hist
 GenInit == Init /\ hist = <<>>
-GenNext == phase = "idle" /\ \E c \in CasesOn(Paths) : Submit(c) /\ hist' = <<[ev |-> "Cfg", N |-> N, V |-> V, endpoints |-> Endpoints],
+GenNext == phase = "idle" /\ \E c \in CasesOn(Paths) : Submit(c) /\ hist' = <<[ev |-> "Cfg", N |-> N, V |-> V, endpoints |-> Endpoints,
+                                                    dom |-> Dom, esrc |-> EpochSource],
                                                    [ev |-> "Submit", c |-> c]>>
 GenSpec == GenInit /\ [][GenNext]_<<vars, hist>>
 Emit == hist = <<>> \/ PrintT("@@SCHED@@" \o ToJson(hist))
